@@ -2,6 +2,7 @@ package main
 
 import (
 	"encoding/base64"
+	"encoding/hex"
 	"encoding/json"
 	"fmt"
 	"math/rand"
@@ -70,8 +71,8 @@ type CheckCtx struct {
 	mu         sync.Mutex
 	Viol       []*Violation
 	KnownSeen  map[string]int
-	Steps      int            // steps judged
-	Evals      int            // steps on which a clause of Prop had a true antecedent
+	Steps      int             // steps judged
+	Evals      int             // steps on which a clause of Prop had a true antecedent
 	Distinct   map[string]bool // distinct (event, args, pre-state digest)
 	Counts     map[string]int
 	Traces     int
@@ -122,7 +123,11 @@ func (cx *CheckCtx) runJobs(jobs []Job, mod string) {
 			if len(c.Lines) == 0 {
 				return
 			}
-			jr := c.Judge(mod, 20*time.Minute)
+			want := []string{cx.Prop}
+			if cx.Prop == "C16" {
+				want = []string{"ALL"}
+			}
+			jr := c.JudgeWant(mod, 20*time.Minute, want)
 			cx.absorb(c, jr, j.Name)
 			if jr.Err == nil && len(jr.Fails) == 0 {
 				os.RemoveAll(dir)
@@ -231,7 +236,7 @@ func (v *Violation) isFS() bool {
 		return false
 	}
 	e := v.Trace.Events[v.EvIdx]["ev"]
-	return e == "crash" || e == "fault"
+	return e == "crash" || e == "fault" || e == "damage"
 }
 
 // fsSignature identifies a crash point / fault position by what is stable across runs.
@@ -242,12 +247,25 @@ func fsSignature(l M) string {
 	if f, ok := l["fault"].(M); ok {
 		return fmt.Sprintf("fault|%v/%v/%v", f["kind"], f["fclass"], f["errno"])
 	}
+	if t, ok := l["target"].(M); ok {
+		return fmt.Sprintf("damage|%v/%v", t["fclass"], t["mutation"])
+	}
 	return ""
 }
 
 func (v *Violation) replayFileFS() *ReplayFile {
 	rf := &ReplayFile{Property: v.Prop, Clause: v.Clause, TZ0: v.Trace.TZ0, Obs: roObs, Contents: map[string]string{}, Kind: "fs"}
 	fe := v.Trace.Events[v.EvIdx]
+	if fe["ev"] == "damage" {
+		snap := M{}
+		for k, b := range v.Trace.Snapshot {
+			snap[k] = base64.StdEncoding.EncodeToString(b)
+		}
+		l := v.Chunk.Lines[v.Line-1]
+		rf.Extra = M{"mode": "damage", "mutation": fe, "snapshot": snap, "signature": fsSignature(l), "results": l["results"]}
+		rf.Note = fmt.Sprintf("in the repository of the snapshot, %v of %v at offset %v (new bytes in mutation.hex): clause %s fails; results per command are in extra.results", fe["kind"], fe["rel"], fe["off"], v.Clause)
+		return rf
+	}
 	at := toInt(fe["at"])
 	n := -1
 	for _, ev := range v.Trace.Events {
@@ -280,6 +298,41 @@ func (v *Violation) replayFileFS() *ReplayFile {
 // again at a position with the same signature.
 func reexecFS(goit string, rf *ReplayFile, dir string) (bool, error) {
 	c := NewChunk(dir)
+	if rf.Extra["mode"] == "damage" {
+		snap := map[string][]byte{}
+		for k, v := range rf.Extra["snapshot"].(M) {
+			b, _ := base64.StdEncoding.DecodeString(v.(string))
+			snap[k] = b
+		}
+		mu := rf.Extra["mutation"].(M)
+		data, _ := hex.DecodeString(fmt.Sprint(mu["hex"]))
+		str := func(k string) string {
+			if s, ok := mu[k].(string); ok {
+				return s
+			}
+			return ""
+		}
+		m := mutation{rel: str("rel"), kind: str("kind"), off: toInt(mu["off"]), val: toInt(mu["val"]), data: data, rel2: str("rel2"), class: str("class"), class2: str("class2"), mi: toInt(mu["mi"])}
+		gd, _ := os.MkdirTemp(scratchBase(), "vdg")
+		defer os.RemoveAll(gd)
+		materializeFiles(snap, gd)
+		gr := runnerAt(goit, gd, c.T, rf.TZ0)
+		good := c.T.Project(gr.Root, gr.Home)
+		c.Lines = append(c.Lines, M{"kind": "state", "st": good, "obs": gr.Observe(roObs, good, nil), "trace": "replay"})
+		st := &dmgStats{ByClass: map[string]int{}, ByKind: map[string]int{}}
+		sl, results := damageCase(goit, c, snap, rf.TZ0, good, 1, m, "replay", st)
+		fmt.Fprintln(os.Stderr, "   results on the damaged repository:", results)
+		jr := c.Judge("GoitTrace", 10*time.Minute)
+		if jr.Err != nil {
+			return false, jr.Err
+		}
+		for _, f := range jr.Fails {
+			if f.Clause == rf.Clause && f.Line == sl {
+				return true, nil
+			}
+		}
+		return false, nil
+	}
 	contents := map[string][]byte{}
 	for k, v := range rf.Contents {
 		b, _ := base64.StdEncoding.DecodeString(v)
@@ -345,7 +398,7 @@ func reexec(goit string, rf *ReplayFile, dir string) (bool, []JFail, error) {
 		tr.Step(ev)
 	}
 	c.Add(tr, rf.TZ0)
-	jr := c.Judge("GoitTrace", 10*time.Minute)
+	jr := c.JudgeWant("GoitTrace", 10*time.Minute, []string{rf.Property})
 	if jr.Err != nil {
 		return false, nil, jr.Err
 	}
